@@ -910,7 +910,7 @@ func allocmark() int { return 0 }
 func allocatedid(i int) bool { return true }
 func maps[T any]() interface{} { return nil }
 func elems[T any]() interface{} { return nil }
-func fields[T any]() interface{} { return nil }
+func fields[T any](except ...string) interface{} { return nil }
 func pointee(x interface{}) interface{} { return nil }
 func itercount() int { return 0 }
 type rangeindex = int
